@@ -676,3 +676,69 @@ Proof.
     rewrite nth_indep with (d' := Some 0) by (rewrite map_length; specialize (Hfit k); lia).
     rewrite (map_nth Some). f_equal. rewrite Hflat by exact Hjj. exact Hlevel.
 Qed.
+
+(* ================================================================== *)
+(* the premises of the level theorems are satisfiable (concrete spectra)   *)
+(* ================================================================== *)
+Lemma powr_p1 : forall x, 0 < x -> powr x 1 = x.
+Proof. intros x H. unfold powr. destruct (Req_EM_T x 0); [lra|]. apply Rpower_1. exact H. Qed.
+
+Ltac step_R :=
+  match goal with |- context [Rlt_dec ?a ?b] =>
+    lazymatch a with context [Rlt_dec _ _] => fail | _ => idtac end;
+    lazymatch b with context [Rlt_dec _ _] => fail | _ => idtac end;
+    destruct (Rlt_dec a b); try (exfalso; lra); cbn [nth]
+  end.
+Ltac decide_R :=
+  unfold Rabs;
+  repeat (match goal with |- context [Rcase_abs ?a] => destruct (Rcase_abs a); try (exfalso; lra) end);
+  repeat step_R; try reflexivity.
+
+Lemma ex_imin : i_min_of [1; 2; 3; 4] = 0%nat.
+Proof. unfold i_min_of. cbn [map argminR nth]. decide_R. Qed.
+
+Lemma ex_imax : i_max_of [1; 2; 3; 4] 4 2 = 2%nat.
+Proof. unfold i_max_of. rewrite ex_imin. cbn [map argminR nth length]. decide_R. Qed.
+
+(* a spectrum with E f = 1 on bins 1..2 (p = 1, nb = 2): the mean method returns level 1 *)
+Lemma mean_level_example :
+  exists a1 b1,
+  eq_mean 1 4 2 [1; 2; 3; 4] [Some 5; Some (1 / 2); Some (1 / 3); Some (7 / 4)] [] [] = Some (Some 1, a1, b1).
+Proof.
+  apply (mean_level 1 4 2 [1; 2; 3; 4] _ [] [] [5; 1; 1; 7] 1 1%nat).
+  - reflexivity.
+  - cbn [scaled omul map]. rewrite !powr_p1 by lra. repeat f_equal; field.
+  - intros x [<-|[<-|[<-|[<-|[]]]]]; lra.
+  - lia.
+  - rewrite ex_imin, ex_imax. lia.
+  - intros ii Hii. destruct ii as [|[|ii]]; try lia; reflexivity.
+  - rewrite ex_imin, ex_imax. intros k c' Hk Hflat.
+    assert (k = 0 \/ k = 1)%nat as [->| ->] by lia.
+    + pose proof (Hflat 0%nat ltac:(lia)) as H0. pose proof (Hflat 1%nat ltac:(lia)) as H1. cbn in H0, H1. lra.
+    + pose proof (Hflat 0%nat ltac:(lia)) as H0. cbn in H0. lra.
+Qed.
+
+Lemma powr_2_4 : powr 2 4 = 16.
+Proof.
+  unfold powr. destruct (Req_EM_T 2 0); [lra|].
+  replace 4 with (INR 4) by (simpl; ring). rewrite Rpower_pow by lra. simpl. ring.
+Qed.
+Lemma powr_1_4 : powr 1 4 = 1.
+Proof.
+  unfold powr. destruct (Req_EM_T 1 0); [lra|].
+  replace 4 with (INR 4) by (simpl; ring). rewrite Rpower_pow by lra. simpl. ring.
+Qed.
+
+(* E = f^-4 on both bins: the peak method returns level 1 *)
+Lemma peak_level_example :
+  fst (fst (eq_peak 4 [1; 2] [Some 1; Some (1 / 16)] [] [])) = Some 1.
+Proof.
+  apply (peak_f4_level 4 [1; 2] _ [] [] 1 1%nat).
+  - reflexivity.
+  - cbn. lia.
+  - cbn [nth]. rewrite powr_2_4. lra.
+  - cbn [nth]. rewrite powr_2_4. reflexivity.
+  - intros j Hj. cbn in Hj. destruct j as [|[|j]]; try lia; cbn [nth omul fill0].
+    + rewrite powr_1_4. lra.
+    + rewrite powr_2_4. lra.
+Qed.
